@@ -235,6 +235,11 @@ package linux
 // again, so that any order of any number of states has one normal form
 // (structural guards on the three statements; their combined effect on the
 // text is not specified)
+// --sport / --dport: only leading zeros are dropped (the default lower bound 0
+// of a range) and a trailing ":65535" becomes ":" - nothing inside the value is
+// touched (structural guards on the two statements)
+//vc:  assert[C05] at "v = strings.TrimLeft(v," @onlyLeadingZerosDropped arg1 == "0"
+//vc:  assert[C05] at "strings.CutSuffix(v, " @defaultUpperBoundDropped true
 //vc:  assert[C05] after "l := strings.Split(v" @stateListSplitAtEveryComma true
 //vc:  assert[C05] at "sort.Strings(l)" @wholeStateListSorted true
 //vc:  assert[C05] after "v = strings.Join(l" @sortedStatesJoined true
